@@ -1308,6 +1308,17 @@ impl<V: Full> Backend for B<V> {
             if again != kt || again.cmp(&kt) != std::cmp::Ordering::Equal || again.partial_cmp(&kt) != Some(std::cmp::Ordering::Equal) {
                 return harness_err("KeyText raw round trip differs");
             }
+            // comparisons with texts of other lengths, either way round: false, never a panic
+            let raw = kt.as_raw_bytes().to_vec();
+            for other in [raw[..raw.len() / 2].to_vec(), raw[..raw.len().saturating_sub(1)].to_vec(), [&raw[..], &[0u8][..]].concat(), [&raw[..], &raw[..]].concat(), vec![]] {
+                let o = KeyText::<V, K>::from_raw_bytes(&other);
+                if other != raw && (kt == o || o == kt || kt.cmp(&o) == std::cmp::Ordering::Equal || o.partial_cmp(&kt) == Some(std::cmp::Ordering::Equal)) {
+                    return harness_err("KeyTexts of different lengths compare equal");
+                }
+                if kt.cmp(&o) != o.cmp(&kt).reverse() {
+                    return harness_err("KeyText ordering is not antisymmetric");
+                }
+            }
             {
                 use std::hash::{BuildHasher, Hash, Hasher};
                 let bh = std::collections::hash_map::RandomState::new();
